@@ -51,7 +51,7 @@ RealInit ==
   /\ rings = [r \in RingIds |-> NoRing]
   /\ builders = [b \in ObjIds |-> IF b = 0 THEN NewBuilder ELSE Dead]
   /\ checkers = [c \in ObjIds |-> Dead]
-  /\ toks = [s \in SlotIds |-> [ret |-> "null"]] /\ nextId = 0
+  /\ toks = [s \in SlotIds |-> NullG] /\ nextId = 0
   /\ hist = <<>>
 
 Do(a) == /\ IF a.k = "set" THEN MSet(Map, a.v).err # ANY ELSE TRUE
